@@ -38,6 +38,8 @@ from spyne.error import ResourceNotFoundError
 from spyne.model import ByteArray, File, Fault, ComplexModelBase, Array, Any, \
     AnyDict, Uuid, Unicode
 
+from spyne.model.binary import BINARY_ENCODING_USE_DEFAULT
+
 from spyne.protocol.dictdoc import DictDocument
 
 
@@ -50,6 +52,8 @@ class HierDictDocument(DictDocument):
 
     VALID_UNICODE_SOURCES = (six.text_type, six.binary_type, memoryview,
                                                                 mmap, bytearray)
+
+    VALID_BINARY_SOURCES = (six.binary_type, memoryview, mmap, bytearray)
 
     from_serstr = DictDocument.from_unicode
     to_serstr = DictDocument.to_unicode
@@ -242,6 +246,14 @@ class HierDictDocument(DictDocument):
                 if (validator is self.SOFT_VALIDATION
                                         and isinstance(inst, six.string_types)
                                         and not cls.validate_string(cls, inst)):
+                    raise ValidationError([key, inst])
+
+                if issubclass(cls, ByteArray) and inst is not None \
+                        and self.binary_encoding is None \
+                        and cls_attrs.encoding is BINARY_ENCODING_USE_DEFAULT \
+                        and not isinstance(inst, self.VALID_BINARY_SOURCES):
+                    # without a text encoding, binary data travels natively
+                    # (e.g. msgpack bin): nothing else can stand in for it.
                     raise ValidationError([key, inst])
 
                 if issubclass(cls, (ByteArray, Uuid)):
